@@ -102,7 +102,10 @@ func (p *MACPayload) UnmarshalBinary(uplink bool, data []byte) error {
 
 		// even when FPort = 0, we store the mac-commands within a DataPayload.
 		// only after decryption we're able to unmarshal them.
-		p.FRMPayload = []Payload{&DataPayload{Bytes: data[7+p.FHDR.FCtrl.fOptsLen+1:]}}
+		// copy: the decoded payload must not share memory with the input buffer
+		frm := make([]byte, len(data[7+p.FHDR.FCtrl.fOptsLen+1:]))
+		copy(frm, data[7+p.FHDR.FCtrl.fOptsLen+1:])
+		p.FRMPayload = []Payload{&DataPayload{Bytes: frm}}
 	}
 
 	return nil
